@@ -221,6 +221,8 @@ BUILDER_OPS = (
     [["arg", a] for a in ("x", "y", "", "two words")] + [["args", ["p", "q"]], ["args", []]]
     + [["env", k, v] for k in ("A", "B", "HOME") for v in ("1", "2", "")]
     + [["env_extend", [["A", "1"], ["B", "2"]]], ["env_extend", [["A", "2"], ["A", "1"]]], ["env_extend", []]]
+    # (names differing only in case are different variables)
+    + [["env", "a", "9"], ["env", "home", "h"], ["env_extend", [["a", "1"], ["A", "2"], ["Home", "x"]]], ["env_remove", "a"]]
     + [["env_remove", k] for k in ("A", "B", "HOME", "NO_SUCH_VAR")] + [["env_clear"]]
     + [["cwd", d] for d in ("/tmp", "/")]
     + [["stdin", k] for k in ("pipe", "null", "file", "data-xyz", "merge")]
